@@ -38,15 +38,16 @@ class Sim:
         self.extra_invariant = extra_invariant
         self.checks = set(checks)
         self.work = env.fresh_dir('hist')
-        self.store = membackend.Store()
         self.flavour = cfg.get('backend', 'mem')
+        # 'local': replicat's own Local adapter on a scratch directory, observed through the same Store interface
+        self.store = membackend.DirStore(os.path.join(self.work, 'repo')) if self.flavour == 'local' else membackend.Store()
         self.n = cfg.get('concurrent', 2)
         self.loop = asyncio.new_event_loop()
         self.users = []
         self.snaps = []
         self.clients = {}
         self.client_user = {}
-        self.events = set()
+        self.events = {'backend:local'} if self.flavour == 'local' else set()
         self.counts = {}
         self.step = 0
         self.encrypted = cfg['settings'].get('encryption') is not None
@@ -96,6 +97,12 @@ class Sim:
                     self.loop.run_until_complete(self.loop.shutdown_asyncgens())
                 except Exception:
                     pass
+                # backend calls that were already running in worker threads cannot be cancelled: let them finish, so that what
+                # they do is attributed to this command and not to the next one
+                import time as _time
+                t0 = _time.monotonic()
+                while self.store.in_flight > 0 and _time.monotonic() - t0 < 10:
+                    _time.sleep(0.001)
                 raise
         return res, out.getvalue()
 
@@ -544,6 +551,21 @@ class Sim:
         self.planted_orphans -= orphans
         return self._confinement(u, before, after, set(before) - set(after), 'clean', allowed=orphans)
 
+    def op_clean_both(self, op):
+        """One long-lived client garbage-collects for two users in turn (re-unlocked in between), each of whom has left orphans."""
+        j = 1 + op.get('client', 0) % 2
+        for who in (op['a'], op['b']):
+            f = self.op_plant({'op': 'plant', 'user': who, 'kind': 'orphans', 'n': op.get('n', 1), 'seed': op.get('seed', 0) + who})
+            if f:
+                return f
+        if self.user(op['a']).uid != self.user(op['b']).uid:
+            self.events.add('one-client-cleans-for-two-users')
+        for who in (op['a'], op['b']):
+            f = self.op_clean({'op': 'clean', 'user': who, 'client': j})
+            if f:
+                return f
+        return None
+
     def _restore_and_compare(self, u, s, client=0):
         tgt = os.path.join(self.work, f'restore-{self.step}-{s.seq}')
 
@@ -768,7 +790,7 @@ class Sim:
                 self.planted_orphans.add(loc)
             self.events.add('planted-orphans')
         else:
-            for name in ('keys/user%d' % u.uid, 'notes.txt', 'datax/zz', 'snapshots.bak/a-b'):
+            for name in ('keys/user%d' % u.uid, 'notes.txt', 'datax/zz', 'snapshots.bak/a-b', 'keyring.tmp', 'exports/session.tmp'):
                 self.store.objects[name] = r.randbytes(12)
                 self.planted_foreign[name] = self.store.objects[name]
             self.events.add('planted-foreign')
@@ -857,11 +879,11 @@ def _owns(rd, loc):
 
 
 @st.composite
-def sim_config(draw, encrypted=None):
+def sim_config(draw, encrypted=None, backends=('mem', 'amem')):
     s = draw(gen.settings(max_max=96, encrypted=encrypted))
     mn, mx = s['chunking']['min_length'], s['chunking']['max_length']
     contents = draw(st.lists(gen.content_spec(mn, mx), min_size=3, max_size=6))
-    return {'settings': s, 'backend': draw(st.sampled_from(['mem', 'amem'])),
+    return {'settings': s, 'backend': draw(st.sampled_from(list(backends))),
             'concurrent': draw(st.sampled_from([1, 2, 3, 5, 8])), 'contents': contents, **draw(cache_mode())}
 
 
@@ -962,6 +984,8 @@ def make_machine(prop, tier, ctx, *, checks, encrypted=None, weights=None, extra
         lambda u, v, c: {'op': 'cross_restore', 'user': u, 'victim': v, 'client': c})
     add('unlock_wrong', w['unlock_wrong'], dict(u=small, o=small, h=st.integers(0, 2), v=st.integers(0, 3)),
         lambda u, o, h, v: {'op': 'unlock_wrong', 'user': u, 'other': o, 'how': h, 'variant': v})
+    add('clean_both', w.get('clean_both', 0), dict(a=small, b=small, c=st.integers(0, 1), n=small, s=st.integers(0, 999)),
+        lambda a, b, c, n, s: {'op': 'clean_both', 'a': a, 'b': b, 'client': c, 'n': n, 'seed': s})
     add('vanishing_snapshot', w.get('vanish', 0), dict(u=small, f=fileset, n=st.booleans()),
         lambda u, f, n: {'op': 'vanishing_snapshot', 'user': u, 'files': f, 'note': n})
     add('neighbour', w.get('neighbour', 1), dict(k=small), lambda k: {'op': 'neighbour', 'what': k})
